@@ -266,6 +266,19 @@ def check_property_file(prop, timeout=900):
     for blk in re.split(r'\n(?=Closed under the global context|Axioms:)', out):
         pass
     res['assumptions'] = parse_assumptions(src, out)
+    # every Print Assumptions in the source must have produced a block: an unbalanced string quote inside a
+    # comment would silently swallow theorems that the regex above still counts
+    wanted = re.findall(r'Print Assumptions\s+(\w+)', src)
+    nblocks = len(re.findall(r'^(Closed under the global context|Axioms:)', out, re.M))
+    if nblocks != len(wanted):
+        res['failed'] = 'Properties_%s.v: %d Print Assumptions commands but %d results (part of the file was not checked)' % (prop, len(wanted), nblocks)
+        res['wall_s'] = time.time() - t0
+        return res
+    missing = [t for t in theorems if t not in wanted]
+    if missing:
+        res['failed'] = 'Properties_%s.v: no Print Assumptions for %s' % (prop, ', '.join(missing[:5]))
+        res['wall_s'] = time.time() - t0
+        return res
     res['ok'] = True
     res['discharged'] = len(theorems)
     res['wall_s'] = time.time() - t0
